@@ -25,7 +25,7 @@ TRANSPARENT_ARG0 = {
     'unwrap_or_default', 'ok', 'to_biguint', 'to_bigint', 'to_bytes_be', 'to_be_bytes', 'rev',
     'enumerate', 'skip', 'step_by', 'take', 'as_slice', 'as_mut_slice', 'from_residual', 'unwrap_unchecked',
     'from_felt_unchecked', 'into_boxed_slice', 'into_vec', 'as_ptr', 'finalize', 'to_string', 'as_str',
-    'as_bytes', 'from_bytes_be_slice', 'from_bytes_be', 'chain', 'zip', 'peekable', 'by_ref',
+    'as_bytes', 'from_bytes_be_slice', 'from_bytes_be', 'peekable', 'by_ref',
     'box_assume_init_into_vec_unsafe', 'new_uninit', 'write', 'assume_init', 'collect',
 }
 ELEMENT_OF_ARG0 = {'get', 'get_mut', 'index', 'index_mut', 'first', 'last', 'next', 'first_mut',
@@ -169,7 +169,7 @@ class TypeEnv:
                 parts = split_generic('T<' + ty[1:-1] + '>')[1]
                 i = int(name)
                 return parts[i] if i < len(parts) else False
-            if base in _PRIMS or base.endswith('::felt::Felt'):
+            if base in _PRIMS or base.endswith('::felt::Felt') or ty.startswith('['):
                 return False
             return self.UNKNOWN
         if a['kind'] != 'struct':
@@ -262,6 +262,7 @@ class Flow:
         self.parent = list(range(n))
         self.out = {}            # param local -> leaves written through the &mut param
         self._ext_memo = {}
+        self.pw = {}             # access path (a<k>.f...) -> leaves written to it through a projection / &mut
         self.field_writes = []   # (bb, base leaves, field name, leaves, line)
         self.call_ord = {}
         self.site_leaf = {}      # bb -> call leaf for opaque calls
@@ -522,8 +523,24 @@ class Flow:
         else:
             ch |= self._add(l, leaves)
         base = self.L[r]
-        for k in range(1, self.fn.arg_count + 1):
-            if f'a{k}' in base and self.fn.local_ty(k).startswith('&mut'):
+        # the access paths this write lands on
+        tgt = set()
+        if self.fn.local_ty(l).startswith(('&', '*')) and len(base) <= 12:
+            tgt = set(x for x in base if x.startswith('a') and x[1:2].isdigit())
+        for e in proj:
+            if e == '*':
+                continue
+            if isinstance(e, dict) and 'f' in e and e.get('adt') not in WRAPPER_ADTS:
+                tgt = {self.ext(x, '.' + e.get('n', str(e['f']))) for x in tgt}
+            elif isinstance(e, dict) and ('i' in e or 'ci' in e or 'sub' in e):
+                tgt = {self.ext(x, '[*]') for x in tgt}
+        for x in tgt:
+            w = self.pw.setdefault(x, set())
+            n0 = len(w)
+            w |= leaves
+            ch |= len(w) != n0
+            k = int(_LEAF_RE.match(x).group(1))
+            if k <= self.fn.arg_count and self.fn.local_ty(k).startswith('&mut'):
                 o = self.out.setdefault(k, set())
                 n0 = len(o)
                 o |= leaves
@@ -648,10 +665,17 @@ class Flow:
                             others |= self._closure_effect(a, argl, bi)
                     if nm in OPS:
                         others.add('op:' + OPS[nm])
+                        if nm.endswith('_assign'):
+                            others |= argl[j]      # x op= y also depends on the old x
                     if site and targets:
                         others.add(site)
                     ch |= self._write(bi, {'l': pl['l'], 'p': ['*']}, others, t.get('line'))
         ch |= self._write(bi, dest, res, t.get('line'))
+        # an external accessor handing back a reference derived from a &mut argument aliases it
+        if not local_targets and not dest['p'] and args and self.fn.local_ty(dest['l']).startswith('&mut'):
+            p0 = op_place(args[0])
+            if p0 is not None and not p0['p'] and self.fn.local_ty(p0['l']).startswith('&mut'):
+                ch |= self.union(dest['l'], p0['l'])
         if dest['l'] == 0 and not dest['p'] and f.get('path') != cfgmod.FROM_RESIDUAL:
             n0 = len(self.ret_ok)
             self.ret_ok |= res
